@@ -35,6 +35,8 @@ pub struct Encryptor {
 pub struct User {
     pub cc: Covercrypt,
     pub usk: Option<(UserSecretKey, MUsk)>,
+    /// Policy the current key was generated for, and the structure epoch at that time.
+    pub pol: Option<(crate::model::Pol, u64)>,
 }
 
 #[derive(Clone, Debug, PartialEq, Eq)]
@@ -61,6 +63,8 @@ pub struct Slot {
     pub from_recaps: bool,
     /// Index of the event that created this slot (for slot-aware minimisation).
     pub born_event: usize,
+    /// Encryption policy (AST) and version of the structure it was evaluated in.
+    pub pol: Option<(crate::model::Pol, u64)>,
 }
 
 pub enum Msg {
@@ -123,6 +127,9 @@ pub struct World {
     pub cleartexts: Vec<Vec<u8>>,
     /// SUT ids of attributes that were disabled at the time of a successful update.
     pub disabled_ids: BTreeSet<u64>,
+    /// Incremented by every structure edit, rekey, prune and restore: two objects made in the
+    /// same epoch can be compared with the name-level cover relation.
+    pub epoch: u64,
 }
 
 /// Interns a dynamically built counter name (bounded set of names).
@@ -174,6 +181,7 @@ impl World {
             .map(|i| User {
                 cc: seeded_cc(seed, 200 + i as u64),
                 usk: None,
+                pol: None,
             })
             .collect();
         Ok(World {
@@ -198,6 +206,7 @@ impl World {
             want: want.iter().copied().collect(),
             cleartexts: vec![],
             disabled_ids: BTreeSet::new(),
+            epoch: 0,
         })
     }
 
